@@ -173,9 +173,9 @@ def expectation(cost, jparam, X, s, e, family):
 
 
 # ---------------------------------------------------------------------------------------------------------------- check
-def call(sc, cuts):
+def call(sc, cuts, dtype=np.int64):
     try:
-        return sc.evaluate(np.array(cuts, dtype=np.int64)), None
+        return sc.evaluate(np.array(cuts, dtype=dtype)), None
     except RuntimeError as e:
         return None, "RuntimeError"
     except Exception as e:          # anything else is never a permitted outcome for an admissible interval
@@ -227,7 +227,7 @@ def check_single(rec, cost, kind, jparam, container, X, family, s, e, sc=None):
     return bool(np.any(np.abs(np.asarray(val)) > 0)), got[0]
 
 
-def check_batch(rec, cost, kind, jparam, container, X, family, cuts, singles, label, sc=None):
+def check_batch(rec, cost, kind, jparam, container, X, family, cuts, singles, label, sc=None, dtype=np.int64):
     """One call with all `cuts`; every row must equal the single-interval row (singles: dict (s,e)->row)."""
     n, p = X.shape
     mode = "optim" if jparam is None else "fixed"
@@ -235,7 +235,9 @@ def check_batch(rec, cost, kind, jparam, container, X, family, cuts, singles, la
            "cuts": cuts}
     if sc is None:
         sc = make_cost(cost, make_param(cost, jparam, container)).fit(X)
-    got, err = call(sc, cuts)
+    got, err = call(sc, cuts, dtype)
+    if np.dtype(dtype) != np.dtype(np.int64):
+        inp["cuts_dtype"] = np.dtype(dtype).name
     q = p if UNIVARIATE[cost] else 1
     if err is not None:
         rec.violation(f"{cost}:{mode}:batch-raises", f"{cost}({kind}).evaluate of a batch ({label}) of {len(cuts)} intervals that are "
@@ -281,6 +283,11 @@ def run_matrix(rec, rng, label, X, family, costs=("L2Cost", "GaussianVarCost", "
                 for blabel, cuts in (("lexicographic", good), ("reversed", good[::-1]), ("shuffled+duplicates", dup)):
                     check_batch(rec, cost, kind, jparam, container, X, family, [list(c) for c in cuts], singles, blabel, sc=sc)
                     rec.case((cost, kind, label, blabel), True)
+                # the same admissible intervals held in other INTEGER dtypes (the value of an interval does not depend on how its two
+                # integers are stored: narrow and unsigned types must not wrap around inside the kernels)
+                for dt in (np.uint64, np.uint8, np.int8, np.int32):
+                    check_batch(rec, cost, kind, jparam, container, X, family, [list(c) for c in good], singles, f"cuts as {np.dtype(dt).name}", sc=sc, dtype=dt)
+                    rec.case((cost, kind, label, np.dtype(dt).name), True)
                 # history: a fresh object evaluated in another order / after other calls gives the same rows
                 sc2 = make_cost(cost, make_param(cost, jparam, container)).fit(X)
                 call(sc2, [list(c) for c in good[::-1]])
@@ -333,7 +340,7 @@ def replay(inp, repo="/repo"):
             if row is not None:
                 singles[(s, e)] = row
         if all(tuple(c) in singles for c in cuts):
-            check_batch(rec, cost, kind, jparam, container, X, family, cuts, singles, "replay")
+            check_batch(rec, cost, kind, jparam, container, X, family, cuts, singles, "replay", dtype=np.dtype(inp.get("cuts_dtype", "int64")).type)
     else:
         for s, e in cuts:
             check_single(rec, cost, kind, jparam, container, X, family, s, e)
